@@ -92,6 +92,11 @@ sim::Json make_token(sim::Rng& rng, bool cmdline, bool allow_errors) {
       static const double pool[] = {0.5, -2.25, 1e-6, 1.5e10, 3, 0, 123456.789, -1e-300, 7.0e22, 0.1};
       double v = pool[rng.below(10)];
       vtext = fmt_g(v);
+      if (d.type == 'D' && rng.chance(0.12)) {   // magnitudes outside the normal range of a double: strtod under-/overflows (and sets errno)
+        static const char* lit[] = {"1e-400", "4e-320", "1e999", "-1e999", "2.5e-310"};
+        vtext = lit[rng.below(5)];
+        v = strtod(vtext.c_str(), nullptr);
+      }
       t.set("val", v); t.set("sem", "set");
       break;
     }
